@@ -155,6 +155,9 @@ def source_scan(module):
     return bad
 
 
+_hangs = []
+
+
 def _pipe(lines, workdir, idx):
     """Run one chunk of case lines through the harness and the model driver."""
     inp = os.path.join(workdir, "in%d.txt" % idx)
@@ -180,12 +183,20 @@ def _pipe(lines, workdir, idx):
     impl = open(mid).read().split("\n")
     impl = impl[:-1]        # drop the unterminated tail (empty when the output ends with a newline)
     crashed = None
-    if p.returncode != 0 or len(impl) != len(lines):
+    if len(impl) > len(lines):
+        raise Broken("harness", "the harness printed more answers than it was given lines")
+    if len(impl) != len(lines):
         # the harness died (unrecoverable runtime error): the next line is the culprit
         crashed = len(impl)
         impl = impl[:crashed]
         rest = lines[crashed + 1:]
         impl.append(lines[crashed] + " => CRASH")
+        if p.returncode == -9:
+            _hangs.append(lines[crashed])
+        if len(_hangs) > 4:
+            # a tree on which many lines hang: the verdict is settled, do not spend hang_s on every further line
+            lines = lines[:crashed + 1]
+            rest = []
         if rest:
             sub, _ = _pipe(rest, workdir, idx * 1000 + 1)
             impl.extend(s[0] for s in sub)
@@ -215,7 +226,9 @@ def run_cases(lines, jobs=1):
                 parts = list(ex.map(lambda a: _pipe(a[1], workdir, a[0])[0] if a[1] else [], enumerate(chunks)))
             res = [None] * len(lines)
             for k, part in enumerate(parts):
-                res[k::jobs] = part
+                for j, item in enumerate(part):
+                    res[k + j * jobs] = item
+            res = [x for x in res if x is not None]     # chunks cut short after repeated hangs
     finally:
         shutil.rmtree(workdir, ignore_errors=True)
     return [Case(i, v) for i, v in res]
